@@ -200,3 +200,35 @@ def out_header(lkey, rkey, louts, routs, lp, rp):
         _oh[key] = z3.Function('out_header_%s_%s' % ('N' if louts is None else 'L', 'N' if routs is None else 'L'), *sorts)
     args = [lkey, rkey] + ([] if louts is None else [louts]) + ([] if routs is None else [routs]) + [lp, rp]
     return _oh[key](*args)
+
+
+# ------------------------------------------------------------------ counting matches (definitions)
+witV = z3.Function('witV', sort_of(_LV), ValSort, I)            # a position of x in a, when x in a
+cntV = z3.Function('cntV', sort_of(_LV), sort_of(_LV), I, I)    # #{ j < p : b[j] in a }
+
+
+def mem_axioms_V():
+    """definition of memV / witV"""
+    a = z3.Const('a!mem', sort_of(_LV))
+    x = z3.Const('x!mem', ValSort)
+    j = z3.Int('j!mem')
+    return [z3.ForAll([a, j], z3.Implies(z3.And(j >= 0, j < L_len(_LV, a)), memV(a, L_get(_LV, a, j))),
+                      patterns=[L_get(_LV, a, j)]),
+            z3.ForAll([a, x], z3.Implies(memV(a, x), z3.And(witV(a, x) >= 0, witV(a, x) < L_len(_LV, a),
+                                                           L_get(_LV, a, witV(a, x)) == x)),
+                      patterns=[memV(a, x)])]
+
+
+def cnt_axioms_V():
+    """definition of cntV by recursion on the prefix length, and of isectV for duplicate-free
+    second arguments: the number of elements of b that occur in a"""
+    a, b = z3.Consts('a!cnt b!cnt', sort_of(_LV))
+    p = z3.Int('p!cnt')
+    return [z3.ForAll([a, b], cntV(a, b, 0) == 0, patterns=[cntV(a, b, 0)]),
+            z3.ForAll([a, b, p], z3.Implies(z3.And(p >= 0, p < L_len(_LV, b)),
+                                            cntV(a, b, p + 1) == cntV(a, b, p) + z3.If(memV(a, L_get(_LV, b, p)), 1, 0)),
+                      patterns=[cntV(a, b, p + 1)]),
+            z3.ForAll([a, b, p], z3.Implies(p >= 0, z3.And(cntV(a, b, p) >= 0, cntV(a, b, p) <= p)),
+                      patterns=[cntV(a, b, p)]),
+            z3.ForAll([a, b], z3.Implies(dupfree(_LV, b), isectV(a, b) == cntV(a, b, L_len(_LV, b))),
+                      patterns=[isectV(a, b)])]
